@@ -1,7 +1,31 @@
 import Acra.Drv.FTI
+import Acra.Drv.FTI2
 import Acra.Drv.Float
+import Acra.Drv.Search
+import Acra.Drv.Mpeg
+import Acra.Drv.Ch10
+import Acra.Drv.Net
+import Acra.Drv.Golay7
 import Acra.Drv.Ch11
 namespace Acra.Drv
-def allCodecs : List Codec := ftiCodecs ++ Ch11.ch11Codecs
-def allFuncs : List Func := ftiFuncs ++ floatFuncs ++ Ch11.ch11Funcs
+def allCodecs : List Codec := List.flatten [
+  ftiCodecs,
+  fti2Codecs,
+  Mpeg.mpegCodecs,
+  ch10Codecs,
+  NetC.netCodecs,
+  golay7Codecs,
+  Ch11.ch11Codecs
+]
+def allFuncs : List Func := List.flatten [
+  ftiFuncs,
+  fti2Funcs,
+  floatFuncs,
+  searchFuncs,
+  Mpeg.mpegFuncs,
+  ch10Funcs,
+  NetC.netFuncs,
+  golay7Funcs,
+  Ch11.ch11Funcs
+]
 end Acra.Drv
